@@ -1044,6 +1044,11 @@ impl Stdfs {
                 return Err(PathError::is_not_dir(path).into());
             }
         }
+
+        // Link exclusion as in mkdir_p: a link to a directory is not the directory asked for
+        if !Stdfs::is_dir(&abs) {
+            return Err(PathError::is_not_dir(abs).into());
+        }
         Ok(abs)
     }
 
